@@ -1640,6 +1640,12 @@ class UserSpaceImpl(*_user_space_impl_base):
     def _init_own_refs(self):
         return RefDict("own_refs", self)
 
+    def on_delete(self):
+        # The references of a deleted space no longer hold their values
+        for ref in list(self.own_refs.values()):
+            self.model.refmgr.unregister_ref(ref)
+        super().on_delete()
+
     def _init_refs(self, arguments=None):
         return RefChainMap("refs",
             self,
